@@ -144,8 +144,9 @@ Theorem simple_transitive_table : forall n A B C,
   can_assign_f table (S (S (S n))) false A C = true.
 Proof.
   intros n A B C HA HB HC HnB H1 H2.
-  rewrite simple_closed_form in * by assumption.
-  eapply (acc_simple_trans table table_tassign_transitive table_nominal_upward); eauto.
+  rewrite (simple_closed_form table n A B HA HB) in H1. rewrite (simple_closed_form table n B C HB HC) in H2.
+  rewrite (simple_closed_form table n A C HA HC).
+  exact (acc_simple_trans table table_tassign_transitive table_nominal_upward A B C HA HB HC HnB H1 H2).
 Qed.
 
 Theorem simple_reflexive_table : forall n A,
